@@ -141,7 +141,9 @@ func c17Enumerate(tier string, emit explore.Emit) {
 	forShapes(len(ds), sdepth, func(sh []int) {
 		shape := append([]int(nil), sh...)
 		emit(explore.Case{Family: "session", Size: len(shape),
-			Desc: func() any { return map[string]any{"base": "boom", "shape_innermost_first": shapeNames(ds, shape), "via": "simple query"} },
+			Desc: func() any {
+				return map[string]any{"base": "boom", "shape_innermost_first": shapeNames(ds, shape), "via": "simple query"}
+			},
 			Run: func() explore.Result {
 				var res explore.Result
 				res.Outcome = "decorated"
